@@ -97,6 +97,9 @@ def run(ctx):
                 if ctx.mine(k):
                     exercise(ctx, st, s, h, w, supplied)
     ctx.exhaustive[f"all frames 0..{lim} x 0..{lim}, all coordinates of the stated box"] = True
+    for k, (h, w) in enumerate([(5, 9), (9, 5), (8, 8), (1, 12), (12, 1), (6, 11), (17, 3)]):
+        if ctx.mine(k):
+            exercise(ctx, st, s, h, w, supplied=bool(k % 2))
     # frames used by the loop constraints themselves (monitor stays on while the real functions run)
     if ctx.shard == 0:
         for h, w in [(1, 1), (2, 3), (3, 2), (0, 2)]:
